@@ -445,6 +445,12 @@ func processList(list []ast.Stmt) []ast.Stmt {
 	for _, s := range list {
 		pos := s.Pos()
 		rewriteCalls(s)
+		// go once.Do(f) -> go func() { once.Do(f) }(): the Do inside is then rewritten like any other
+		if g, ok := s.(*ast.GoStmt); ok {
+			if sx, ok := isMethodCall(g.Call, "Do"); ok && len(g.Call.Args) == 1 && isOnceRecv(sx.X) {
+				g.Call = &ast.CallExpr{Fun: &ast.FuncLit{Type: &ast.FuncType{Params: &ast.FieldList{}}, Body: &ast.BlockStmt{List: []ast.Stmt{&ast.ExprStmt{X: g.Call}}}}}
+			}
+		}
 		_, isGo := s.(*ast.GoStmt)
 		want := !*syncOnly || isSyncStmt(s)
 		s2 := processStmt(s)
